@@ -332,8 +332,12 @@ class Box:
 
     def __init__(self, permitted_name: bytes = b'root'):
         install()
+        # tmpfs when there is one: a case creates and removes ~25 entries
+        shm = '/dev/shm'
+        where = shm if os.path.isdir(shm) and os.access(shm, os.W_OK) \
+            else None
         self.top = os.fsencode(os.path.realpath(
-            tempfile.mkdtemp(prefix='vf-c13.')))
+            tempfile.mkdtemp(prefix='vf-c13.', dir=where)))
         self.base = self.top + b'/l1/l2'
         self.permitted = self.base + b'/' + permitted_name
         self.outside = self.base + b'/outside'
